@@ -531,3 +531,20 @@ def retype(ctx, fl, rnd, engine):
                 t.value = conv(t.value)
             t.height = conv(t.height)
     ctx.hit("workload:numbers held as NumPy floating-point scalars")
+
+
+def rejected_edit(rnd, engine):
+    """a rule of the engine is given another rule's text, damaged so that the rule parser refuses it late (after it has read
+    the antecedent, or the consequent): the edit is rejected, so the engine is the engine it was; returns the number of
+    rejected edits"""
+    rules = [r for rb in engine.rule_blocks for r in rb.rules]
+    n = 0
+    for rule in rnd.sample(rules, min(len(rules), 2)):
+        other = rnd.choice(rules)
+        base = other.text.split(" with ")[0]
+        bad = rnd.choice([base.split(" then ")[0] + " then", base + " with 0,5", base + " with 50%", base + " with", base + " with 0.5 0.5"])
+        try:
+            rule.text = bad
+        except Exception:
+            n += 1
+    return n
